@@ -9,8 +9,8 @@ ENGINE = 'grid'
 TECHNIQUE = 'bounded exhaustive evaluation of a generated problem grid (series family x parameters x index range x method x precision) on the real summation code against closed forms'
 RULE = ('finite nsum/nprod over ALL ranges [a,b] with -3 <= a <= b <= 6 vs exact Fractions; infinite series with closed forms: geometric (ratios +-1/2, 1/3, '
         '-2/3, 9/10), 1/k^s (s=2,3,4, zeta values), alternating (eta values, log 2, pi/4), hypergeometric-type (e, cosh 1, Bessel-type), exp(-k), polynomial x geometric k*r^k (r = +-1/2, +-9/10, +-15/16); half- and '
-        'doubly-infinite ranges; 2-D and 3-D sums vs the product/iterated closed form, incl. ALL 9+27 patterns of range kinds (finite, [0,inf), (-inf,0]) per argument position; every nsum method (default, richardson, shanks, levin, alternating, '
-        'euler-maclaurin, direct) where applicable; nprod with closed forms; sumem, sumap, limit (incl. direction), richardson, shanks, levin, cohen_alt on '
+        'doubly-infinite ranges; 2-D and 3-D sums vs the product/iterated closed form, incl. ALL 9+27 patterns of range kinds (finite, [0,inf), (-inf,0]) per argument position; nsum(ignore=True) with poles inside finite, half-infinite, doubly infinite and multi-dimensional ranges; every nsum method (default, richardson, shanks, levin, alternating, '
+        'euler-maclaurin, direct) where applicable; nprod with closed forms; sumem (finite, right- and left-infinite ranges), sumap, limit (incl. direction), richardson, shanks, levin, cohen_alt on '
         'explicit sequences; precisions {30,53,100,300}.  Tolerance 2^(10-p) relative.  non-trivial = every problem; distinct by construction')
 ASSUMPTIONS = ['closed forms with pi/zeta/log/exp evaluated by the library at 3x precision']
 BOUNDS = {'quick': 'precisions {30,53,100}', 'thorough': 'adds 300'}
@@ -175,6 +175,28 @@ def t_multi(task):
                 except core.TimeoutHit:
                     acc.count('timeouts'); continue
                 close(acc, mp, 'pattern-%s' % ''.join(pat), g, lambda ex=ex: F2m(mp, ex), p, 'multi-sum')
+        # ignore=True: singular terms are skipped one by one, wherever they sit in a finite range, a doubly infinite range or a multi-dimensional sum
+        mp.prec = p
+        def recip2(k, a):
+            return 1 / (k - a) ** 2
+        cases = [
+            ('ignore finite', lambda: mp.nsum(lambda k: 1 / (k - 3) ** 2, [0, 6], ignore=True), lambda: sum(mp.mpf(1) / (k - 3) ** 2 for k in range(0, 7) if k != 3)),
+            ('ignore doubly-infinite pole at 3', lambda: mp.nsum(lambda k: 1 / (k - 3) ** 2, [-inf, inf], ignore=True), lambda: 2 * mp.zeta(2)),
+            ('ignore half-infinite pole at 5', lambda: mp.nsum(lambda k: 1 / (k - 5) ** 2, [0, inf], ignore=True), lambda: mp.zeta(2) + sum(mp.mpf(1) / j ** 2 for j in range(1, 6))),
+            ('ignore 2-D pole at (2,1)', lambda: mp.nsum(lambda j, k: 1 / (((j - 2) ** 2 + (k - 1) ** 2) * mp.mpf(2) ** (j + k)), [0, inf], [0, inf], ignore=True),
+             lambda: mp.nsum(lambda j: mp.nsum(lambda k: 0 if (j == 2 and k == 1) else 1 / (((j - 2) ** 2 + (k - 1) ** 2) * mp.mpf(2) ** (j + k)), [0, inf]), [0, inf])),
+            ('ignore finite x infinite', lambda: mp.nsum(lambda j, k: 1 / ((j - 1) * mp.mpf(2) ** k), [0, 3], [1, inf], ignore=True), lambda: (mp.mpf(-1) + 1 + mp.mpf(1) / 2) * 1),
+        ]
+        for desc, g, ex in cases:
+            mp.prec = p
+            try:
+                v = core.with_timeout(120, g)
+            except core.TimeoutHit:
+                acc.count('timeouts'); continue
+            except Exception as e:
+                acc.evals += 1
+                acc.violation(['multi-sum', desc, p], '%s at prec %d raised %r' % (desc, p, e), kind='multi-sum', desc=desc.split(' ')[0]); continue
+            close(acc, mp, desc, v, ex, p, 'multi-sum', sub=desc)
         acc.sample(['nsum 3-D', p])
     finally:
         mp.prec = 53
@@ -221,14 +243,20 @@ def t_extrap(task):
             close(acc, mp, 'limit ' + desc, g, ex, p, 'limit')
         # sumem: exact for polynomials; for decaying terms it is applied beyond a start index where the asymptotic series reaches the tolerance
         mp.prec = p
-        close(acc, mp, 'sumem k^3 on [0,10]', mp.sumem(lambda k: k ** 3, [0, 10]), lambda: mp.mpf(sum(k ** 3 for k in range(11))), p, 'sumem')
+        close(acc, mp, 'sumem k^3 on [0,10]', core.with_timeout(120, mp.sumem, lambda k: k ** 3, [0, 10]), lambda: mp.mpf(sum(k ** 3 for k in range(11))), p, 'sumem')
         mp.prec = p
         N0 = p
-        close(acc, mp, 'sumem 1/k^2 tail', sum(mp.mpf(1) / k ** 2 for k in range(1, N0)) + mp.sumem(lambda k: 1 / k ** 2, [N0, inf]), lambda: mp.zeta(2), p, 'sumem')
+        close(acc, mp, 'sumem 1/k^2 tail', sum(mp.mpf(1) / k ** 2 for k in range(1, N0)) + core.with_timeout(120, mp.sumem, lambda k: 1 / k ** 2, [N0, inf]), lambda: mp.zeta(2), p, 'sumem')
         mp.prec = p
-        close(acc, mp, 'sumap 1/k^2', mp.sumap(lambda k: 1 / k ** 2, [1, inf]), lambda: mp.zeta(2), p, 'sumap')
+        close(acc, mp, 'sumem 1/k^2 on (-inf,-N]', core.with_timeout(120, mp.sumem, lambda k: 1 / k ** 2, [-inf, -N0]), lambda: mp.zeta(2, N0), p, 'sumem')
         mp.prec = p
-        close(acc, mp, 'sumap exp(-k)', mp.sumap(lambda k: mp.exp(-k), [0, inf]), lambda: 1 / (1 - mp.exp(-1)), p, 'sumap')
+        close(acc, mp, 'sumem exp(k/3) on (-inf,5]', core.with_timeout(120, mp.sumem, lambda k: mp.exp(k / mp.mpf(3)), [-inf, 5]), lambda: mp.exp(mp.mpf(5) / 3) / (1 - mp.exp(-mp.mpf(1) / 3)), p, 'sumem')
+        mp.prec = p
+        close(acc, mp, 'sumem k^2 on [-4,7]', core.with_timeout(120, mp.sumem, lambda k: k ** 2, [-4, 7]), lambda: mp.mpf(sum(k * k for k in range(-4, 8))), p, 'sumem')
+        mp.prec = p
+        close(acc, mp, 'sumap 1/k^2', core.with_timeout(120, mp.sumap, lambda k: 1 / k ** 2, [1, inf]), lambda: mp.zeta(2), p, 'sumap')
+        mp.prec = p
+        close(acc, mp, 'sumap exp(-k)', core.with_timeout(120, mp.sumap, lambda k: mp.exp(-k), [0, inf]), lambda: 1 / (1 - mp.exp(-1)), p, 'sumap')
         # explicit-sequence extrapolators on the sequence classes they are documented for; the sequences are computed at 4x precision
         mp.prec = 4 * p + 40
         N = max(10, p // 2)
@@ -268,7 +296,13 @@ def t_extrap(task):
 
 
 def run_task(task):
-    return globals()['t_' + task[0]](task)
+    try:
+        return globals()['t_' + task[0]](task)
+    except core.TimeoutHit:
+        acc = Acc()
+        acc.evals += 1
+        acc.violation(['timeout', list(task)], 'a summation call in task %s did not return within its 120 s watchdog (typical cost: milliseconds)' % (list(task),), kind='no-return', desc=task[0])
+        return acc
 
 
 def replay(case):
